@@ -145,6 +145,7 @@ func selftest(n int, seed uint64, dir string) error {
 			fmt.Fprintf(&ib, " %d", idx(res.Classes, c))
 		}
 		fmt.Fprintln(wi, ib.String())
+		res.branches(stats)
 		stats["rule_tables"]++
 		stats["rule_facts"] += len(res.Facts)
 		stats["rule_violating_pairs"] += len(res.Violations)
